@@ -266,7 +266,7 @@ pub fn run(ctx: &Ctx) -> ! {
     hp.cross_decrypt_every = 0;
     let spec = RunSpec {
         shards: 16,
-        cases_per_shard: ctx.tier.pick(70, 1000),
+        cases_per_shard: ctx.tier.pick(70, 350),
         cfg_len: CFG_LEN,
         min_ops: 4,
         max_ops: ctx.tier.pick(30, 80),
